@@ -503,6 +503,24 @@ func (r *rwRT) ruleGoGen() {
 	c.check(err1 == nil && tagLoader != nil && sameAV(tagLoader, tagHeader), "GEN.TAG", "loader tag = header tag", pos,
 		"the rewrite stage loads the package under the very tag the header of its outputs negates ("+suffixDefault+"): outputs are invisible to the next run, sources invisible to normal builds",
 		fmt.Sprintf("the tag given to the loader (%v) and the tag negated in the header (%v) differ: %v", tagLoader, tagHeader, err1))
+	// a package filter on the loader must not drop packages of the directory: the package itself and its external
+	// test package `p_test` (a *_co_test.go file in package p_test gets its sibling too)
+	for _, e := range g.o.St.Events {
+		if e.Kind != "call" || e.Fn == nil || e.Fn.Name() != "WithPkgFilter" || len(e.Args) != 1 {
+			continue
+		}
+		for _, pp := range []string{"example.com/m/pkg", "example.com/m/pkg_test", "example.com/m/pkg/sub"} {
+			st := g.o.St.clone()
+			po := st.alloc(&Obj{Kind: 's', Fields: map[string]AV{"PkgPath": mkString(pp), "ID": mkString(pp), "Name": mkString(pp[strings.LastIndex(pp, "/")+1:])}})
+			outs := g.in.Apply(st, e.Args[0], []AV{po})
+			keep, known := false, false
+			if len(outs) == 1 && !outs[0].Panicked && len(outs[0].Ret) == 1 {
+				keep, known = asBool(outs[0].Ret[0])
+			}
+			c.check(known && keep, "GEN.FILTER", "package "+pp+" passes the loader's package filter", pos, "processed",
+				fmt.Sprintf("the package filter given to the loader answers %v (known=%v) for %s: its *_co.go / *_co_test.go files get no derived sibling", keep, known, pp))
+		}
+	}
 	// the same with non-default options: GoGen(dir, WithBuildTag("gen"), WithFileSuffix("src")) — header, loader,
 	// filter and name mapping must all follow the options (a header built from the default tag leaves the outputs
 	// visible to the next run under the custom tag: every declaration is then seen twice)
@@ -600,3 +618,76 @@ func (r *rwRT) ruleGenEnv() {
 }
 
 var _ = token.NoPos
+
+// ------------------------------------------------------------------ DET.TESTMODE
+//
+// The package has a "running under go test" switch (it disables the unique-name counter, the attached
+// source comments and the removal of the intermediate directory so that the golden files are stable).
+// It is decided once, when the package is initialised, from the name of the executable. The
+// initialiser is evaluated abstractly for concrete executable paths: the switch must be on exactly
+// for test binaries (`pkg.test`), not for a tool that merely lives under a path containing ".test" —
+// otherwise the output of a real run (and what it leaves on disk) depends on where the tool is installed.
+func (r *rwRT) ruleTestMode() {
+	c := r.c
+	c.min("DET.TESTMODE", 3)
+	pkg := r.w.SSA[pathRw]
+	initFn := pkg.Func("init")
+	if initFn == nil {
+		c.und("DET.TESTMODE", "package initialiser", "", "package rewriter has no init function")
+		return
+	}
+	pos := r.w.FnPos(initFn)
+	// which package-level booleans are computed from os.Args?
+	for _, tc := range []struct {
+		exe  string
+		want bool
+	}{
+		{"/tmp/go-build123/b001/rewriter.test", true},
+		{"/usr/local/bin/cogen", false},
+		{"/builds/ci.test/bin/cogen", false},
+		{"/home/u/.testbed/cogen", false},
+	} {
+		in := &Interp{W: r.w, MaxDepth: 4, MaxVisits: 4, Inline: func(f *ssa.Function) bool { return false }}
+		in.Fields = map[string]AV{"*global:Args": SliceV{Elems: []AV{mkString(tc.exe)}}}
+		isTestBinary := tc.want
+		in.OnCall = func(cc *CallCtx) []Answer {
+			// the testing flags are registered only in a test binary (package testing is linked in)
+			if cc.Fn != nil && cc.Fn.Name() == "Lookup" && fnPkgPath(cc.Fn) == "flag" {
+				if isTestBinary {
+					return []Answer{{Ret: []AV{NonNil{"flag"}}, NoEvent: true}}
+				}
+				return []Answer{{Ret: []AV{Nil{}}, NoEvent: true}}
+			}
+			return nil
+		}
+		outs := in.Run(nil, initFn, nil, nil)
+		r.c.Paths += in.Paths
+		found := 0
+		for _, o := range outs {
+			if o.Panicked {
+				continue
+			}
+			for _, e := range o.St.Events {
+				if e.Kind != "store" || !strings.HasPrefix(e.Target, "*global:") || len(e.Args) != 1 {
+					continue
+				}
+				name := strings.TrimPrefix(e.Target, "*global:")
+				if !strings.Contains(strings.ToLower(name), "test") {
+					continue
+				}
+				found++
+				b, known := asBool(e.Args[0])
+				construct := fmt.Sprintf("%s for executable %s", name, tc.exe)
+				if !known {
+					c.und("DET.TESTMODE", construct, pos, "the switch is not determined by the executable's name: "+e.Args[0].String())
+					continue
+				}
+				c.check(b == tc.want, "DET.TESTMODE", construct, pos, fmt.Sprintf("test mode = %v", tc.want),
+					fmt.Sprintf("test mode is %v for this executable, expected %v: a real run of the tool from such a path produces test-mode output (iterator temporaries all named alike, no attached comments) and leaves the intermediate directory behind", b, tc.want))
+			}
+		}
+		if found == 0 {
+			c.ok("DET.TESTMODE", "no test-mode switch for executable "+tc.exe, pos, "the package initialiser computes no test-mode switch from the executable name")
+		}
+	}
+}
